@@ -114,21 +114,14 @@ Theorem poly_sound t p grid d : poly_of_text (Some t) p grid = Some d -> poly_fo
 Proof.
   unfold poly_of_text. destruct (get_values t p 128) as [ms q] eqn:G.
   pose proof (get_values_maxrun _ _ _ _ _ G) as MR.
-  destruct ms as [|m ms]; [discriminate|]. intros [= <-].
+  destruct ms as [|m ms]; [discriminate|].
   pose proof (find_colon_first t q) as FC. unfold poly_form.
   destruct (find_colon (skipn q (t_bytes t)) q) as [c|].
-  - destruct (get_values t (S c) (length (m :: ms) - 1)) as [ss q'] eqn:G2.
-    exists (m :: ms), q, (Some c), ss, q'. repeat split; auto; try discriminate; try apply MR.
-    + apply (get_values_maxrun _ _ _ _ _ G2).
-    + apply (get_values_maxrun _ _ _ _ _ G2).
-    + apply (get_values_maxrun _ _ _ _ _ G2).
-  - exists (m :: ms), q, None, [], q. repeat split; auto; try discriminate; apply MR.
-Qed.
-
-Lemma numrun_det t : forall p l1 q1, numrun t p l1 q1 -> forall n l2 q2, maxrun t p n l1 q1 -> maxrun t p n l2 q2 ->
-  l1 = l2 /\ q1 = q2.
-Proof.
-  intros p l1 q1 _ n l2 q2 M1 M2. apply maxrun_get_values in M1, M2. rewrite M1 in M2. now injection M2.
+  - destruct (get_values t (S c) (length (m :: ms) - 1)) as [ss q'] eqn:G2. cbn [fst]. intros [= <-].
+    exists (m :: ms), q, (Some c), ss, q'. split; [exact MR|]. split; [discriminate|]. split; [exact FC|].
+    split; [exact (get_values_maxrun _ _ _ _ _ G2)|reflexivity].
+  - intros [= <-]. exists (m :: ms), q, None, [], q. split; [exact MR|]. split; [discriminate|]. split; [exact FC|].
+    split; reflexivity.
 Qed.
 
 Theorem poly_complete t p grid d : poly_form t p grid d -> poly_of_text (Some t) p grid = Some d.
@@ -160,9 +153,6 @@ Definition profile_form (grid : option (list fv)) (t : text) (d : desc) : Prop :
 Lemma numrun_maxrun t p l q : numrun t p l q -> maxrun t p (length l) l q.
 Proof. intros R. repeat split; [exact R|lia|lia]. Qed.
 
-Lemma maxrun_full t p n l q : maxrun t p n l q -> length l = n -> numrun t p l q.
-Proof. now intros [R _] _. Qed.
-
 Theorem profile_iff grid t d : parse_profile grid (Some t) = Some d <-> profile_form grid t d.
 Proof.
   unfold parse_profile, profile_form. split.
@@ -184,10 +174,10 @@ Proof.
     destruct (N.eqb_spec (N.of_nat (length g)) 0) as [Z|NZ]; [destruct g; [contradiction|discriminate]|].
     destruct (prefix_ci t (skip_space_at t 0) n_lin).
     + destruct F as [q [a [b [q' [NV [R ->]]]]]]. rewrite NV.
-      rewrite (maxrun_get_values _ _ _ _ _ (numrun_maxrun _ _ _ _ R)). reflexivity.
+      rewrite (maxrun_get_values t 2 q [a; b] q' (numrun_maxrun _ _ _ _ R)). reflexivity.
     + destruct (prefix_ci t (skip_space_at t 0) n_bound).
       * destruct F as [q [a [b [c [q' [NV [R ->]]]]]]]. rewrite NV.
-        rewrite (maxrun_get_values _ _ _ _ _ (numrun_maxrun _ _ _ _ R)). reflexivity.
+        rewrite (maxrun_get_values t 3 q [a; b; c] q' (numrun_maxrun _ _ _ _ R)). reflexivity.
       * destruct (prefix_ci t (skip_space_at t 0) n_poly); [|contradiction].
         destruct F as [q [NV PF]]. rewrite NV. now apply poly_complete.
 Qed.
